@@ -512,6 +512,7 @@ class Entry:
     extra: Optional[Callable] = None  # ctx -> dict of additional keyword arguments (**kwargs of the callee)
     first: str = 'model'  # name of the model parameter
     consume: int = 0  # >0: result is an iterator, take that many items
+    domain: Optional[Callable] = None  # model -> reason (str) when the call is outside the bounded domain, else None
 
     def resolve(self):
         if self.fn is None:
@@ -524,11 +525,31 @@ class Entry:
 TABLE: dict[str, Entry] = {}
 
 
-def E(name, /, transform=False, fn=None, extra=None, first='model', consume=0, **params):
-    TABLE[name] = Entry(name=name, fn=fn, params=params, transform=transform, extra=extra, first=first, consume=consume)
+def E(name, /, transform=False, fn=None, extra=None, first='model', consume=0, domain=None, **params):
+    TABLE[name] = Entry(name=name, fn=fn, params=params, transform=transform, extra=extra, first=first, consume=consume, domain=domain)
 
 
 T = dict(transform=True)
+
+
+def small_linear_odes(m):
+    """sympy's dsolve / eigenvalue routines do not terminate in reasonable time on non-linear or large systems:
+    those calls are outside the bounded domain (stated in the evidence)"""
+    ode = m.statements.ode_system
+    if ode is None:
+        return None
+    if len(ode.compartment_names) > 3:
+        return 'more than 3 compartments'
+    import sympy
+
+    amounts = {a._sympy_() for a in ode.amounts}
+    for eq in ode.eqs:
+        rhs = sympy.sympify(eq.rhs._sympy_())
+        for a in amounts:
+            if rhs.diff(a).has(*amounts):
+                return 'non-linear ODE system'
+    return None
+
 
 # ---- pharmpy.modeling: data ----------------------------------------------------------------------
 E('add_admid', **T)
@@ -575,7 +596,7 @@ E('set_reference_values', **T, refs=lambda c: {n: float(1 + c.k() % 70) for n in
 E('translate_nmtran_time', **T)
 E('omit_data', first='dataset_or_model', consume=2, group=lambda c: c.pick(['ID'] + c.cols[:1]))
 E('resample_data', first='dataset_or_model', consume=2, group=const('ID'), resamples=num(1, 2), replace=lambda c: bool(c.k() % 2), stratify=opt(cov, 2))
-E('get_unit_of', variable=lambda c: c.pick(c.cols + c.assigned))
+E('get_unit_of', variable=col)  # model variables: sympy.solve over the unit equations may not terminate (outside the bounded domain)
 E('write_csv', **T, path=scratch_file('.csv'), force=const(True))
 
 # ---- parameters -----------------------------------------------------------------------------------
@@ -696,9 +717,10 @@ E('set_ode_solver', **T)
 for _n in (
     'add_lag_time', 'remove_lag_time', 'set_first_order_absorption', 'set_first_order_elimination', 'set_instantaneous_absorption',
     'set_michaelis_menten_elimination', 'set_mixed_mm_fo_elimination', 'set_seq_zo_fo_absorption', 'set_zero_order_absorption',
-    'set_zero_order_elimination', 'remove_bioavailability', 'solve_ode_system',
+    'set_zero_order_elimination', 'remove_bioavailability',
 ):
     E(_n, **T)
+E('solve_ode_system', **T, domain=small_linear_odes)
 E('add_bioavailability', **T)
 E('add_peripheral_compartment', **T, name=opt(comp, 2))
 E('remove_peripheral_compartment', **T, name=opt(comp, 2))
@@ -716,11 +738,12 @@ for _n in (
     'find_clearance_parameters', 'find_volume_parameters', 'get_bioavailability', 'get_central_volume_and_clearance', 'get_lag_times',
     'get_zero_order_inputs', 'get_number_of_peripheral_compartments', 'get_number_of_transit_compartments',
     'has_first_order_absorption', 'has_first_order_elimination', 'has_instantaneous_absorption', 'has_linear_odes',
-    'has_linear_odes_with_real_eigenvalues', 'has_michaelis_menten_elimination', 'has_mixed_mm_fo_elimination', 'has_odes',
+    'has_michaelis_menten_elimination', 'has_mixed_mm_fo_elimination', 'has_odes',
     'has_presystemic_metabolite', 'has_seq_zo_fo_absorption', 'has_zero_order_absorption', 'has_zero_order_elimination',
 ):
     E(_n)
 E('get_initial_conditions')
+E('has_linear_odes_with_real_eigenvalues', domain=small_linear_odes)
 
 # ---- expressions / evaluation ----------------------------------------------------------------------------------------
 for _n in (
@@ -740,7 +763,7 @@ E('evaluate_expression', expression=expr_str, parameter_estimates=PMAP)
 E('calculate_eta_shrinkage', parameter_estimates=s_pe, individual_estimates=s_ie)
 E('calculate_individual_shrinkage', parameter_estimates=s_pe, individual_estimates_covariance=s_iec)
 E('calculate_individual_parameter_statistics', expr_or_exprs=lambda c: c.pick([c.pick(c.ipars), expr_str(c), [c.pick(c.ipars)]]), parameter_estimates=s_pe, covariance_matrix=opt(s_cov, 2), seed=const(1234))
-E('calculate_pk_parameters_statistics', parameter_estimates=s_pe, covariance_matrix=opt(s_cov, 2), seed=const(1234))
+E('calculate_pk_parameters_statistics', domain=small_linear_odes, parameter_estimates=s_pe, covariance_matrix=opt(s_cov, 2), seed=const(1234))
 E('check_high_correlations', cor=s_cor, limit=num(0.9, 0.1))
 E('check_parameters_near_bounds', values=s_pe)
 E('sample_individual_estimates', individual_estimates=s_ie, individual_estimates_covariance=s_iec, parameters=opt(etas_(2), 2), samples_per_id=num(2, 5), seed=const(1234))
@@ -880,6 +903,9 @@ EXCLUDED = {
     'tools.load_example_modelfit_results / read_modelfit_results / read_results / retrieve_models': 'take a path, not a model',
     'tools.summarize_modelfit_results': 'takes a Context; covered through summarize_modelfit_results_from_entries and the context round trip',
     'tools.common.create_plots': 'plot function',
+    # restricted domains of table entries
+    'solve_ode_system / has_linear_odes_with_real_eigenvalues / calculate_pk_parameters_statistics [non-linear or >3 compartments]': 'sympy dsolve / eigenvalue routines do not terminate in reasonable time; only linear systems with <= 3 compartments are called',
+    'get_unit_of [model variables]': 'sympy.solve over the unit equations may not terminate; only data columns are asked for',
 }
 
 
